@@ -18,6 +18,30 @@ CHECKS = {
             "the space is unbounded and the oracle is exact, so a counterexample search with shrinking is what can be built.",
             "No counterexample among the generated cases; absence outside them is not established. " + TRUST,
             "DESIGN.md §7 C01"),
+    "C02": ("exploration",
+            "property-based testing (proptest over choice tapes) + constructed boundary/oversize cases; measured bytes vs reported lengths, two build profiles",
+            "Generated valid packets and every separately encodable part (bodies, wills, all v5 property sets, protocol) are encoded; "
+            "bytes written are compared with encode_len and with the remaining-length field parsed by the harness, through a Vec and "
+            "a one-byte-per-write sink. PUBLISH packets are sized exactly onto every header-width boundary; payloads and property "
+            "sections above the 4-byte limit must be refused with an error (no panic, nothing emitted). The whole run is repeated "
+            "under a release build (no debug assertions / overflow checks) and the digests of all encodings are compared.",
+            "No counterexample among the generated and constructed cases. The 268,435,455-byte accepted side is only built in the thorough tier. " + TRUST,
+            "DESIGN.md §7 C02"),
+    "C09": ("exploration",
+            "property-based testing (proptest over choice tapes): differential between encoder entry points under scripted sinks",
+            "For generated valid packets the blocking encoder (twice), the async encoder into a Vec, an exactly sized Cursor, a "
+            "one-byte-per-write sink and tape-scripted sinks (Accept(k)/Pending), and control byte ++ var-int ++ streamed body are "
+            "compared byte for byte; the sinks are call-bounded so a spin is a deterministic failure.",
+            "No counterexample among the generated (packet, sink script) pairs. " + TRUST,
+            "DESIGN.md §7 C09"),
+    "C10": ("exploration",
+            "property-based testing (proptest over choice tapes): library encoder vs independent reference decoder written from the OASIS specs",
+            "Generated valid packets are encoded by the library and decoded by the harness' reference decoder; the recovered wire "
+            "values must equal a name-keyed projection of the packet that spells out every wire number from the specification, so an "
+            "error made symmetrically in the library's encoder and decoder is visible. Every reason/return code, every property in "
+            "every context and every protocol level must have been exercised or the run reports broken machinery.",
+            "No counterexample among the generated cases; the reference decoder and its spec tables (DESIGN.md Appendix A) are trusted. " + TRUST,
+            "DESIGN.md §7 C10"),
 }
 
 NOT_YET = "check not built yet in this round (machinery under construction; see DESIGN.md for the plan)"
